@@ -11,8 +11,8 @@ TECHNIQUE = "bounded-exhaustive enumeration of k-subsets (N<=7) + Hypothesis-dra
 RULE = ("exhaustive: for all 1<=k<=N<=Nmax (quick 6, thorough 7) every k-subset of the N blocks, in sorted and in one shuffled order, for a "
         "segment whose size is a multiple of k and for a padded tail segment; random: k<=N<=64 (thorough 256), random subsets, orders and "
         "sizes. Non-trivial = subset containing at least one secondary block (id>=k); distinct by (k,N,size,subset,order).")
-LEVEL_TEXT = "Round trip encode -> pick any k blocks -> decode == segment; complete over all subsets for small N, sampled beyond; includes the pad/trim arithmetic the callers use for tail segments."
-ASSUMPTIONS = ["tail padding/trim is re-implemented here as callers do it (pad to a multiple of k, trim after decode); the callers themselves are covered by C01/C09",
+LEVEL_TEXT = "Round trip encode -> pick any k blocks -> decode == segment; complete over all subsets for small N, sampled beyond; includes the pad/trim arithmetic the callers use for tail segments, and the same blocks are also pushed through the immutable downloader's own DownloadNode._decode_blocks (full and tail segment)."
+ASSUMPTIONS = ["tail padding/trim is re-implemented here as callers do it (pad to a multiple of k, trim after decode) and additionally exercised through a bare DownloadNode (sizes from its own _calculate_sizes); whole downloads are covered by C01/C09",
                "zfec from /venv is the erasure-coding primitive"]
 EXHAUSTIVE = {"quick": True, "thorough": True}
 REQUIRED_CLASSES = ["has-secondary", "padded-tail", "shuffled-order"]
@@ -54,6 +54,42 @@ def cases(draw, maxN):
     return {"k": k, "N": N, "size": max(1, size), "subset": sorted(subset), "shuffle": draw(st.integers(0, 1000)), "fill": draw(st.integers(0, 50))}
 
 
+class _VC:
+    pass
+
+
+class _DS:
+    def add_misc_event(self, *a, **kw):
+        pass
+
+
+def _via_downloader(ctx, case, k, N, size, segment, padded, blocks, order, bs):
+    from allmydata import codec
+    from allmydata.immutable.downloader.node import DownloadNode
+    S = len(padded)
+    vc = _VC()
+    vc.size, vc.needed_shares, vc.total_shares = S + size, k, N
+    n = DownloadNode.__new__(DownloadNode)
+    n._verifycap = vc
+    n._download_status = _DS()
+    n.segment_size = S
+    for name, v in n._calculate_sizes(S).items():
+        setattr(n, name, v)
+    n._codec = codec.CRSDecoder()
+    n._codec.set_params(S, k, N)
+    ctx.check(n.num_segments == 2 and n.tail_segment_size == size and n.block_size == bs, "downloader-sizes",
+              "k=%d N=%d file=%d seg=%d: sizes %r" % (k, N, S + size, S, n._calculate_sizes(S)))
+    # segment 0 is `padded` itself (S bytes, a full segment); segment 1 is `segment` padded to S by the encoder
+    for segnum, want in ((0, padded), (1, segment)):
+        try:
+            got, _t = now_result(n._decode_blocks(segnum, dict((i, blocks[i]) for i in order)))
+        except Exception as e:
+            ctx.fail("downloader-decode-exception", "DownloadNode._decode_blocks raised %r for k=%d N=%d segnum=%d blocks=%r" % (e, k, N, segnum, order))
+            continue
+        ctx.check(got == want, "downloader-wrong-decode",
+                  "k=%d N=%d size=%d segnum=%d blocks=%r: DownloadNode._decode_blocks returned data differing from the segment" % (k, N, size, segnum, order))
+
+
 def run_case(case, ctx):
     from allmydata import codec
     from allmydata.util import mathutil
@@ -85,6 +121,9 @@ def run_case(case, ctx):
         return
     got = b"".join(out)[:size]
     ctx.check(got == segment, "wrong-decode", "k=%d N=%d size=%d blocks=%r: decoded data differs from the segment" % (k, N, size, order))
+    # the same blocks through the downloader's own decode step (DownloadNode._decode_blocks), which owns the
+    # tail pad/trim arithmetic in production: a two-segment file [S bytes][size bytes] with S = padded_size
+    _via_downloader(ctx, case, k, N, size, segment, padded, blocks, order, bs)
     sec = any(i >= k for i in order)
     cl = [c for c, f in (("has-secondary", sec), ("padded-tail", padded_size != size), ("shuffled-order", order != sorted(order)), ("N>16", N > 16)) if f]
     ctx.note(sig=(k, N, size, tuple(order)), nontrivial=sec, classes=cl, sample=case)
